@@ -176,12 +176,14 @@ def judgeExactContact (tag : String) (sep t pred : Rat) (over : V3 Rat → Optio
     if sep < pred - t then s!"fail none-but-within-prediction {tag} exact-separation={sep.toF} prediction={pred.toF}"
     else if sep > pred + t then "pass" else "skip near-prediction"
   | some c =>
-    let s := self c
-    if s != "pass" then s
-    else if sep > pred + t then s!"fail some-but-beyond-prediction {tag} exact-separation={sep.toF} prediction={pred.toF}"
+    -- the value first (a wrong depth is the more fundamental failure), then the record's self-consistency
+    if sep > pred + t then s!"fail some-but-beyond-prediction {tag} exact-separation={sep.toF} prediction={pred.toF}"
     else if rabs (c.dist - sep) > t then
       (if sep > 0 then s!"fail dist-is-not-the-separation {tag} dist={c.dist.toF} exact-separation={sep.toF}"
        else s!"fail depth-is-not-the-minimum-translation {tag} dist={c.dist.toF} exact={sep.toF}")
+    else
+    let s := self c
+    if s != "pass" then s
     else match over c.normal1 with
       | some ov => if c.dist < 0 && -c.dist > ov + t then s!"fail depth-exceeds-overlap-along-normal1 {tag} dist={c.dist.toF} overlap={ov.toF}" else "pass"
       | none => "pass"
@@ -413,6 +415,30 @@ def handler (fn : String) : Option Handler :=
             | some G1, some G2 => sepG3 G1 G2
             | _, _ => none
           judgeBoth sep tag t (q margin) (q pred) o
+        | none => "skip bad-args" }
+  | "rect2_dist" => some {
+      -- args: he1 he2 t pos1 ; output: the contact distance (prediction 1e6)
+      model := fun a => run (do
+        let he1 ← pv2; let he2 ← pv2; let t ← pv2; let _ ← piso2
+        pure (ff (rectSignedDist he1 he2 t))) a
+      oracle := fun a o => match run (do let he1 ← pv2; let he2 ← pv2; let t ← pv2; let m ← piso2; pure (he1, he2, t, m)) a with
+        | some (he1, he2, t, m1) =>
+          let M1 := qiso2 m1
+          if !unitC M1 then "skip non-unit-rotation" else
+          withOut pfo o fun d =>
+            if !FloatIO.isFinite d then "fail nonfinite-output" else
+            -- independent referee: the generic rounded-polygon separation of `Exact.lean` on the posed rectangles
+            let M2 : Iso2 Rat := ⟨M1.re, M1.im, M1.act (q2 t)⟩
+            match geom2 (.prim (.cuboid he1)) M1, geom2 (.prim (.cuboid he2)) M2 with
+            | some G1, some G2 =>
+              (match sepG2 G1 G2 with
+              | some sep =>
+                let tl : Rat := (1 / 1000000) * (1 + vmag2 (q2 he1) + vmag2 (q2 he2) + vmag2 (q2 t) + vmag2 M1.t)
+                if rabs (q d - sep) ≤ tl then "pass"
+                else if sep > 0 then s!"fail dist-is-not-the-separation dist={d} exact-separation={sep.toF}"
+                else s!"fail depth-is-not-the-minimum-translation dist={d} exact={sep.toF}"
+              | none => "skip no-exact-separation")
+            | _, _ => "skip no-exact-geometry"
         | none => "skip bad-args" }
   | _ => none
 
